@@ -37,6 +37,9 @@ func init() {
 	fs.DirectIOSim = DIO
 	sop.Now = vhook.Now
 	Base = fmt.Sprintf("/dev/shm/verif_%d", os.Getpid())
+	if b := os.Getenv("VERIF_BASE"); b != "" {
+		Base = b // shared between a writer child and its verifier process
+	}
 	Dir = filepath.Join(Base, "w")
 	Tpl = filepath.Join(Base, "tpl")
 }
